@@ -12,7 +12,7 @@ PENDING = {}
 
 ENGINE_NOTE = ("Trusts g++/clang++, the -fno-access-control probe used for the canonical state key, and the independently "
                "numbered structure descriptor (cross-checked against the library's registry before exploring). Bounds: the "
-               "curated program set (thorough: plus the systematic family), <= 1 (thorough 2) non-default callback decisions per "
+               "curated program set (thorough: plus the systematic family of all trees with <= 4 states and the spine family of kind chains, C01-C05 C09 C13), <= 1 (thorough 2) non-default callback decisions per "
                "step, request batches of <= 2 (thorough 3); documented preconditions respected.")
 
 chk("C01", "model_checking",
@@ -57,7 +57,7 @@ chk("C08", "model_checking",
     ENGINE_NOTE + " Pairs are capped at 500 (thorough 2500) states per program; the cap is reported.",
     "explicit-state closure + exhaustive pairwise differential on the real implementation", "DESIGN.md 4 C08")
 chk("C09", "model_checking",
-    "Every explored processing edge (requests, batches, callback requests, all guard cancel/substitute deviations, manual initial activation) compares previousTransitions()/lastTransitionTo() with the environment's own record of approved and vetoed rounds, and replays the recorded list on an identically prepared replica, which must reach the same configuration without consulting guards.",
+    "Every explored processing edge (requests, batches, callback requests, all guard cancel/substitute deviations, manual initial activation) compares previousTransitions()/lastTransitionTo() with the environment's own record of approved and vetoed rounds, and replays the recorded list on an identically prepared replica, which must reach the same configuration without consulting guards and end with exactly the replayed list as its own history; re-activation (enter / replayEnter) is explored from every exit history, not only from the representative of the merged state key.",
     ENGINE_NOTE, "explicit-state model checking with authority/replica differential on every edge", "DESIGN.md 4 C09")
 chk("C10", "model_checking",
     "Over the complete reachable state graph: every base edge re-executed in storage pre-filled with 0x00/0xFF/0xA5 at fresh addresses (scripted and built-in generator, two compilers) must give identical traces and keys; ordered pairs of histories interleaved on two instances; at every state a copy must continue like the original, not alias it, and leave it unaffected.",
